@@ -167,6 +167,8 @@ class C04(Check):
                                         out.append({"p": pi, "b": bkey, "host": host, "sites": [list(s1), list(s2), list(s3)]})
         for v in range(len(METHOD_CASES)):
             out.append({"meth": v})
+        for v in range(len(IMPORT_CASES)):
+            out.append({"imp": v})
         for v in range(len(VAR_CASES)):
             out.append({"var": v})
         for v in range(len(PARAM_CASES)):
@@ -179,6 +181,8 @@ class C04(Check):
     def run(self, case):
         if "meth" in case:
             return self.run_simple(case, METHOD_CASES[case["meth"]], "method")
+        if "imp" in case:
+            return self.run_simple(case, IMPORT_CASES[case["imp"]], "method")
         if "var" in case:
             return self.run_simple(case, VAR_CASES[case["var"]], "variable")
         if "param" in case:
@@ -298,6 +302,9 @@ class C04(Check):
             finally:
                 ctx.close()
             feats = sorted(["inline:" + what, "shape:" + spec["name"]] + ["%s=%s" % kv for kv in opts.items()])
+            if spec["name"].startswith("imports/"):
+                _, dk, tk, st, pt = spec["name"].split("/")
+                feats = sorted(["inline:function-with-dependencies", "dep:" + dk, tk, "client:" + st, "query:" + pt] + ["%s=%s" % kv for kv in opts.items()])
             res["mech"]["inline-" + what] = res["mech"].get("inline-" + what, 0) + 1
             detail = {"files": files, "offset": off, "options": opts}
 
@@ -382,6 +389,32 @@ def _method_cases():
     return out
 
 
+def _import_cases():
+    """The inlined body depends on names of its own module; the call sits in another module whose import
+    block may already contain similar-looking imports or clashing names."""
+    out = []
+    lib = {"xutil.py": "V = 'xutil.V'\n", "xutils.py": "V = 'xutils.V'\n", "xpk/__init__.py": "", "xpk/xsubm.py": "S = 'xpk.xsubm.S'\n"}
+    deps = {"import": ("import xutil", "xutil.V"), "import-as": ("import xutil as xu", "xu.V"), "from": ("from xutil import V", "V"),
+            "from-as": ("from xutil import V as W", "W"), "import-dotted": ("import xpk.xsubm", "xpk.xsubm.S"), "from-pkg": ("from xpk import xsubm", "xsubm.S"),
+            "global-var": ("G = 'xd.G'", "G"), "helper": ("def helper():\n    return 'xd.helper'", "helper()"), "two": ("import xutil\nimport xutils", "xutil.V + xutils.V")}
+    dests = {"none": "", "prefix-named-module": "import xutils\n", "same-import": "import xutil\n", "same-from": "from xutil import V\n",
+             "other-alias": "import xutil as other\n", "prefix-from": "from xutils import V\n", "own-V": "V = 'xu.V'\n", "own-name-xutil": "xutil = 'xu.xutil'\n"}
+    dest_use = {"none": "", "prefix-named-module": "print(xutils.V)\n", "same-import": "print(xutil.V)\n", "same-from": "print(V)\n",
+                "other-alias": "print(other.V)\n", "prefix-from": "print(V)\n", "own-V": "print(V)\n", "own-name-xutil": "print(xutil)\n"}
+    for dk, (dep, expr) in deps.items():
+        xd = "%s\n\n\ndef f(a):\n    return a + %s\n" % (dep, expr)
+        for tk, block in dests.items():
+            for style, call in (("import xd", "xd.f('1')"), ("from xd import f", "f('1')")):
+                xu = "%s\n%s\nprint(%s)\n%s" % (style, block, call, dest_use[tk])
+                files = dict(lib)
+                files.update({"xd.py": xd, "xu.py": xu})
+                name = "imports/%s/dest-%s/%s" % (dk, tk, style.split()[0])
+                out.append({"name": name + "/at-call", "files": files, "module": "xu.py", "needle": "f('1'", "delta": 0})
+                out.append({"name": name + "/at-def", "files": files, "module": "xd.py", "needle": "def f", "delta": 4})
+    return out
+
+
+IMPORT_CASES = _import_cases()
 METHOD_CASES = _method_cases()
 VAR_CASES = _var_cases()
 PARAM_CASES = _param_cases()
